@@ -195,6 +195,14 @@ def run_pipeline(case):
     return R(None, oc, nontrivial=bool(stages) or base != 'T', steps=len(got), tags=set(stages) | {base, src_kind})
 
 
+def lt1(x):
+    return x < 1
+
+
+def falsy(x):
+    return not x          # selects items that are themselves falsy (0, [], ''): a genuine match, not "no match"
+
+
 def run_terminal(case):
     src_kind, base, stages, term = case
     spec0 = build_spec(base, stages)
@@ -203,8 +211,8 @@ def run_terminal(case):
         spec = spec0.all()
         ref = lambda: list(ref_pipeline(rsrc, base, stages))
     else:
-        key = {'T': T, 'gt2': gt2, 'never': (lambda x: False)}[term[1]]
-        pykey = {'T': bool, 'gt2': gt2, 'never': (lambda x: False)}[term[1]]
+        key = {'T': T, 'gt2': gt2, 'never': (lambda x: False), 'lt1': lt1, 'falsy': falsy}[term[1]]
+        pykey = {'T': bool, 'gt2': gt2, 'never': (lambda x: False), 'lt1': lt1, 'falsy': falsy}[term[1]]
         spec = spec0.first(key=key, default=term[2]) if term[1] != 'T' or term[2] is not None else spec0.first()
         ref = lambda: bfirst(ref_pipeline(rsrc, base, stages), default=term[2], key=pykey)
 
@@ -252,7 +260,8 @@ def gen_pipelines(tier):
 def gen_terminals(tier):
     cases = []
     seqs = [()] + list(itertools.product(STAGE_NAMES, repeat=1)) + list(itertools.product(STAGE_NAMES, repeat=2))
-    terms = [['all'], ['first', 'T', None], ['first', 'gt2', None], ['first', 'never', 'dflt'], ['first', 'gt2', 'dflt']]
+    terms = [['all'], ['first', 'T', None], ['first', 'gt2', None], ['first', 'never', 'dflt'], ['first', 'gt2', 'dflt'],
+             ['first', 'lt1', 'dflt'], ['first', 'lt1', None], ['first', 'falsy', 'dflt'], ['first', 'falsy', 7]]
     for src in ('empty', 'six', 'inf'):
         for base in ('T', 'skipodd', 'sentinel3'):
             for s in seqs:
